@@ -360,6 +360,9 @@ def constructed_objects():
                                      MySQLCapability.CLIENT_LONG_PASSWORD, MySQLCapability.CLIENT_PLUGIN_AUTH]),
                           ('rdp', [RDPProtocol.SSL, RDPProtocol.HYBRID, RDPProtocol.HYBRID_EX])):
         objs['set-' + name] = Holder(set(members))
+    # text with format-string metacharacters, as list items, dict values and nested (a renderer that runs str.format
+    # over already rendered text fails or unescapes them)
+    objs['text-braces'] = Holder(['{x}', '{{y}}', 'a{0}b', '}{', '{', '{indent}{index}', {'k': ['{value}', '%s %d']}, ('{newline}', ['{}'])])
     objs['set-strings'] = Holder({'beta', 'alpha', 'Gamma', 'é', '', 'a"b', '10', '9'})
     objs['set-mixed'] = Holder({3, 'a', 10, 9, None, 1.5, b'\x01', (1, 2), Colour.RED, Level.HIGH})
     objs['set-nested'] = Holder([frozenset({frozenset({2, 1}), frozenset({'x'}), frozenset()}), {Inner('b'), Inner('a')}
@@ -624,6 +627,20 @@ def check_set_pair(case):
         return [('set-iteration-order',
                  'equal objects whose {} sets were filled in the orders {} and {} serialise differently: {} vs {}'.format(
                      case['enum'].split(':')[1], case['a'], case['b'], ja if ja != jb else repr(ma), jb if ja != jb else repr(mb)))]
+    # the same members as FROZEN sets (what a caller may pass for a flag field), plain and nested in a list
+    enum_cls = corpus.resolve(case['enum'])
+    _, _, _, _, _, Holder = _test_classes()
+    fa = frozenset([enum_cls[n] for n in case['a']])
+    fb = frozenset([enum_cls[n] for n in case['b']])
+    for wrap in (lambda x: Holder(x), lambda x: Holder([x, 'tail']), lambda x: Holder({'k': x})):
+        ha, hb = wrap(fa), wrap(fb)
+        ja, jb = impl_json(ha), impl_json(hb)
+        ma, mb = impl_markdown(ha), impl_markdown(hb)
+        clear_pins()
+        if ja != jb or ma != mb:
+            return [('set-iteration-order',
+                     'equal frozensets of {} filled in the orders {} and {} serialise differently: {} vs {}'.format(
+                         case['enum'].split(':')[1], case['a'], case['b'], ja if ja != jb else repr(ma), jb if ja != jb else repr(mb)))]
     return []
 
 
